@@ -238,7 +238,7 @@ fn write_entry(
         low_res_scale,
     } = entry.specs;
 
-    file_format.write_header(w, &EntryHeaderData {
+    file_format.write_header(w, emitter, &EntryHeaderData {
         rt_width, rt_height, rt_format, colorkey,
         offset_x, offset_y,
         memory_priority,
@@ -396,6 +396,18 @@ fn write_texture(f: &mut BinWriter, data: &TextureData, metadata: &TextureMetada
     Ok(())
 }
 
+/// Convert an entry header field to the integer type that stores it in the file,
+/// or emit an error if the value does not fit.  (so that it is never silently truncated)
+fn fit_header_field<T, U>(emitter: &dyn Emitter, field: &str, value: T) -> Result<U, ErrorReported>
+where
+    T: Copy + std::fmt::Display,
+    U: TryFrom<T>,
+{
+    U::try_from(value).map_err(|_| emitter.as_sized().emit(error!(
+        "{} {} does not fit in {} bits", field, value, 8 * std::mem::size_of::<U>(),
+    )))
+}
+
 /// Type responsible for dealing with version differences in the container format.
 struct FileFormat {
     version: Version,
@@ -488,44 +500,45 @@ impl FileFormat {
         }
     }
 
-    fn write_header(&self, f: &mut BinWriter, header: &EntryHeaderData) -> WriteResult {
+    fn write_header(&self, f: &mut BinWriter, emitter: &dyn Emitter, header: &EntryHeaderData) -> WriteResult {
+        let opt_offset = |x: Option<NonZeroU64>| x.map(NonZeroU64::get).unwrap_or(0);
         if self.version.is_old_header() {
             // old format
-            f.write_u32(header.num_sprites as _)?;
-            f.write_u32(header.num_scripts as _)?;
+            f.write_u32(header.num_sprites)?;
+            f.write_u32(header.num_scripts)?;
             f.write_u32(0)?;
-            f.write_u32(header.rt_width as _)?;
-            f.write_u32(header.rt_height as _)?;
-            f.write_u32(header.rt_format as _)?;
-            f.write_u32(header.colorkey as _)?;
-            f.write_u32(header.name_offset as _)?;
+            f.write_u32(header.rt_width)?;
+            f.write_u32(header.rt_height)?;
+            f.write_u32(header.rt_format)?;
+            f.write_u32(header.colorkey)?;
+            f.write_u32(fit_header_field(emitter, "name offset", header.name_offset)?)?;
             f.write_u32(0)?;
-            f.write_u32(header.secondary_name_offset.map(NonZeroU64::get).unwrap_or(0) as _)?;
+            f.write_u32(fit_header_field(emitter, "secondary name offset", opt_offset(header.secondary_name_offset))?)?;
             f.write_u32(header.version)?;
             f.write_u32(header.memory_priority)?;
-            f.write_u32(header.thtx_offset.map(NonZeroU64::get).unwrap_or(0) as _)?;
-            f.write_u16(header.has_data as _)?;
+            f.write_u32(fit_header_field(emitter, "texture offset", opt_offset(header.thtx_offset))?)?;
+            f.write_u16(fit_header_field(emitter, "has_data", header.has_data)?)?;
             f.write_u16(0)?;
-            f.write_u32(header.next_offset as _)?;
+            f.write_u32(fit_header_field(emitter, "next entry offset", header.next_offset)?)?;
             f.write_u32(0)?;
 
         } else {
             // new format
-            f.write_u32(header.version as _)?;
-            f.write_u16(header.num_sprites as _)?;
-            f.write_u16(header.num_scripts as _)?;
+            f.write_u32(header.version)?;
+            f.write_u16(fit_header_field(emitter, "number of sprites", header.num_sprites)?)?;
+            f.write_u16(fit_header_field(emitter, "number of scripts", header.num_scripts)?)?;
             f.write_u16(0)?;
-            f.write_u16(header.rt_width as _)?;
-            f.write_u16(header.rt_height as _)?;
-            f.write_u16(header.rt_format as _)?;
-            f.write_u32(header.name_offset as _)?;
-            f.write_u16(header.offset_x as _)?;
-            f.write_u16(header.offset_y as _)?;
-            f.write_u32(header.memory_priority as _)?;
-            f.write_u32(header.thtx_offset.map(NonZeroU64::get).unwrap_or(0) as _)?;
-            f.write_u16(header.has_data as _)?;
-            f.write_u16(header.low_res_scale as _)?;
-            f.write_u32(header.next_offset as _)?;
+            f.write_u16(fit_header_field(emitter, "rt_width", header.rt_width)?)?;
+            f.write_u16(fit_header_field(emitter, "rt_height", header.rt_height)?)?;
+            f.write_u16(fit_header_field(emitter, "rt_format", header.rt_format)?)?;
+            f.write_u32(fit_header_field(emitter, "name offset", header.name_offset)?)?;
+            f.write_u16(fit_header_field(emitter, "offset_x", header.offset_x)?)?;
+            f.write_u16(fit_header_field(emitter, "offset_y", header.offset_y)?)?;
+            f.write_u32(header.memory_priority)?;
+            f.write_u32(fit_header_field(emitter, "texture offset", opt_offset(header.thtx_offset))?)?;
+            f.write_u16(fit_header_field(emitter, "has_data", header.has_data)?)?;
+            f.write_u16(fit_header_field(emitter, "low_res_scale", header.low_res_scale)?)?;
+            f.write_u32(fit_header_field(emitter, "next entry offset", header.next_offset)?)?;
             f.write_u32s(&[0; 6])?;
         }
         Ok(())
